@@ -137,8 +137,10 @@ def claim(e, pos):
         hexnum(e.get("daddr", "")), num(e["amount"]), bx(e.get("meta", "")), cbool(e.get("is_msg", False)))
 
 
-def step(s, fep=False):
+def step(s, fep=False, obs=None):
     k = s["k"]
+    if k == "l2reorg":   # applied only when it drops no block a live certificate covers (harness decides at run time)
+        return "XReorg %s" % num(s.get("b", 0)) if (obs or {}).get("applied") else "XNop"
     if fep and k in ("epoch", "status"):
         return "XTickF %s %s %s" % (cbool(k == "epoch"), num(s.get("max", 0)), num(s.get("rule", 0)))
     if k == "block":
@@ -202,7 +204,7 @@ def coq_case(o):
     body = "mkCase02 %s %s %s %d %s %s %s %s %s" % (
         cbool(fep), cbool(i["retry"]), cbool(i.get("agg_prev", False)), i["start_block"], ler,
         clist([step(s) for s in i.get("pre") or []]), clist([row_obs(r, t) for r in o.get("seeds") or []]),
-        clist([step(s, fep) for s in i["steps"]]), clist(obs))
+        clist([step(s, fep, so) for s, so in zip(i["steps"], o["steps"])]), clist(obs))
     return "(let T := %s in %s)" % (clist([hexnum(h) for h in t.vals]), body)
 
 
